@@ -2,6 +2,7 @@
 # Self-test: for every "fix:" commit in /repo, apply its reverse patch to the working tree, run all
 # quick checks, print which properties report a violation, and restore the tree.
 # The checks must be silent on the repaired tree and fire again when a repaired defect returns.
+export UHLINT_EVIDENCE_DIR=$(mktemp -d /tmp/uhlint-ev.XXXXXX)  # never overwrite /verif/evidence from a modified tree
 set -u
 cd /repo
 git diff --quiet || { echo "/repo working tree not clean"; exit 2; }
